@@ -922,6 +922,49 @@ def parse_bindings(result, cls, model):
     return out
 
 
+def single_valued(op, model):
+    """is the value read by this primitive converted into an enumeration with one member (nothing but that member parses)?"""
+    from .values import ClassV
+    for v in (op.args or {}).values():
+        c = v.cls if isinstance(v, ClassV) else None
+        if c is not None and getattr(c, 'is_enum', False):
+            table = c.enum_members
+            if table is not None and len(table) <= 1:
+                return True
+    return False
+
+
+def parsed_then_dropped(presult, cls, model, written):
+    """name of the attribute the composer writes as it is (``self.attr``) when every object the parser returns is built by a
+    call whose arguments are all known and none of them is that attribute"""
+    if not isinstance(written, SelfV) or len(written.path) != 1 or not isinstance(written.path[0], str):
+        return None
+    name = written.path[0]
+    objs = []
+
+    def find_obj(v):
+        if isinstance(v, tuple) and v:
+            find_obj(v[0])
+        elif isinstance(v, ObjV):
+            objs.append(v)
+        elif isinstance(v, Sym) and v.op == 'phi':
+            for a in v.args:
+                find_obj(a)
+        else:
+            objs.append(None)
+    find_obj(presult.value)
+    if not objs or any(o is None for o in objs):
+        return None
+    for o in objs:
+        if o.star or o.ctor_args is None or getattr(o, 'explicit_init', None) is not None:
+            return None
+        if name.lstrip('_') in {k.lstrip('_') for k in o.ctor_args if isinstance(k, str)}:
+            return None
+        if o.cls is not cls or name.lstrip('_') not in {f.name.lstrip('_') for f in o.cls.attrs_fields()}:
+            return None
+    return name
+
+
 def compose_root(v, depth=0):
     """Root attribute(s) of ``self`` a composed value is read from."""
     roots = set()
@@ -977,6 +1020,10 @@ def compare_bindings(cmpn, presult, cls, model):
             continue
         bl = binds.get((id(a.op.target), a.key))
         if not bl:
+            dropped = parsed_then_dropped(presult, cls, model, b.val)
+            if dropped and not single_valued(a.op, model):
+                cmpn.diffs.append(Diff('binding', 'value parsed as %r reaches no argument of the constructed %s, so attribute %s keeps its default whatever '
+                                       'was on the wire; the composer writes that attribute at this position' % (a.key, cls.name, dropped), a, b))
             continue
         roots = compose_root(b.val) if b.val is not None else set()
         if not roots:
